@@ -10,28 +10,25 @@ Local Open Scope N_scope.
    ("after every operation of every history on ns container variables the model of
    con::Container shows the return value / exception, the contents of every container, the
    number of live elements and the absence of lifetime errors that the list specification
-   shows") is FALSE of the faithful model: three refutations below, each confirmed on the real
-   code by harness/C18con.cpp (same observations as the model).  It is proved for every
-   history that avoids the defective calls; [safe_hist] is decided on the specification state
-   alone and rejects exactly: InsertObjectAt(i, _) with 1 <= i <= NumObjects() + 1 (does not
-   compile with the default allocator) and Resize(0) on a non-empty container (the code's
-   "free the list" idiom).  SetNumObjects below the length is covered since the repair of
-   /repo commit ae1a912 (the cut-off elements are destructed): see C18con_SetNumObjects_shrink. *)
+   shows") is FALSE of the faithful model in exactly one respect: Resize(0) on a non-empty
+   container frees the list (the code's inherited idiom) where the specification keeps the
+   contents (C18con_Resize_zero_refuted, confirmed on the real code by harness/C18con.cpp).
+   It is proved for every history without such a call; [safe_hist] is decided on the
+   specification state alone.  SetNumObjects below the length and InsertObjectAt are covered
+   since the repairs of /repo commits ae1a912 and 9c833c0: see the regression Examples. *)
 Theorem C18con_container_refines_list_on_safe_histories :
   forall (ns : N) (ops : list op),
     safe_hist ns ops = true -> run ns ops = spec_run ns ops.
 Proof. exact run_refines_spec. Qed.
 Print Assumptions C18con_container_refines_list_on_safe_histories.
 
-(* in particular for ALL histories over the other 24 operations (AddObject (3 forms),
-   AddUniqueObject, AddObjectAt, SetObjectAt, RemoveObjectAt, RemoveObject (2 forms), ObjectAt,
-   IndexOfObject, ObjectInList, SetNumObjects, SetNumObjectsUninitialized, Shrink, ClearObjectList,
-   FreeObjectList, Sort, the four constructors, copy and move assignment) *)
-Theorem C18con_container_refines_list_without_defective_operations :
+(* in particular for ALL histories over all 26 operations in which no Resize has the argument 0
+   ([plain_op] is a test on the operation alone) *)
+Theorem C18con_container_refines_list_without_Resize_zero :
   forall (ns : N) (ops : list op),
     forallb plain_op ops = true -> run ns ops = spec_run ns ops.
 Proof. exact run_refines_spec_plain. Qed.
-Print Assumptions C18con_container_refines_list_without_defective_operations.
+Print Assumptions C18con_container_refines_list_without_Resize_zero.
 
 (* MaxObjects() >= NumObjects() for every container after every operation of a safe history *)
 Theorem C18con_capacity_covers_contents :
@@ -40,19 +37,6 @@ Theorem C18con_capacity_covers_contents :
     Forall (fun p => Forall2 (fun l c => len l <= c) (o_slots (fst p)) (snd p)) (run_full ns ops).
 Proof. exact capacity_covers_contents. Qed.
 Print Assumptions C18con_capacity_covers_contents.
-
-(* InsertObjectAt without reallocation: move-assignment / assignment to the raw cell behind
-   the last element; the inserted-over element is lost *)
-Theorem C18con_InsertObjectAt_in_place_refuted :
-  exists ops, run 1 ops <> spec_run 1 ops.
-Proof. exact insert_in_place_refuted. Qed.
-Print Assumptions C18con_InsertObjectAt_in_place_refuted.
-
-(* InsertObjectAt with reallocation: the old block is freed without destructing its elements *)
-Theorem C18con_InsertObjectAt_realloc_refuted :
-  exists ops, run 1 ops <> spec_run 1 ops.
-Proof. exact insert_realloc_refuted. Qed.
-Print Assumptions C18con_InsertObjectAt_realloc_refuted.
 
 (* Resize(0) (= reserve(0)) destroys all elements, Resize(n) for 0 < n < NumObjects() keeps them *)
 Theorem C18con_Resize_zero_refuted :
@@ -95,9 +79,7 @@ Example C18con_demo_capacities :
    [6; 0]; [2; 0]; [4; 0]; [4; 0]; [0; 0]].
 Proof. vm_compute. reflexivity. Qed.
 
-(* ---- what the model (and the real code) shows on the three witnesses --------------------------- *)
-(* the former witness against SetNumObjects (n < NumObjects()): model and specification agree,
-   the cut-off elements are destructed (live drops with the length) *)
+(* ---- regression: the former witness against SetNumObjects (n < NumObjects()) -------------------- *)
 Example C18con_SetNumObjects_shrink :
   safe_hist 1 [OAdd 0 1%Z; OAdd 0 2%Z; OAdd 0 3%Z; OSetNum 0 1; OAdd 0 7%Z; OSetNum 0 0] = true /\
   run 1 [OAdd 0 1%Z; OAdd 0 2%Z; OAdd 0 3%Z; OSetNum 0 1; OAdd 0 7%Z; OSetNum 0 0] =
@@ -112,16 +94,30 @@ Example C18con_SetNumObjects_old_witness :
   run 1 [OAdd 0 1%Z; OSetNum 0 0] = spec_run 1 [OAdd 0 1%Z; OSetNum 0 0].
 Proof. vm_compute. reflexivity. Qed.
 
-Example C18con_witness_InsertObjectAt_in_place :
+(* ---- regression: the former witnesses against InsertObjectAt now agree with the specification -- *)
+Example C18con_InsertObjectAt_in_place_old_witness :
+  run 1 [OAdd 0 1%Z; OInsertAt 0 1 5%Z] = spec_run 1 [OAdd 0 1%Z; OInsertAt 0 1 5%Z] /\
   map (fun o => (o_slots o, o_live o, o_bad o)) (run 1 [OAdd 0 1%Z; OInsertAt 0 1 5%Z]) =
-  [([[1]], 1, 0%N); ([[5; -99]], 1, 1%N)]%Z.                    (* specification: [5; 1], live = 2, bad = 0 *)
-Proof. vm_compute. reflexivity. Qed.
+  [([[1]], 1, 0%N); ([[5; 1]], 2, 0%N)]%Z.
+Proof. vm_compute. split; reflexivity. Qed.
 
-Example C18con_witness_InsertObjectAt_realloc :
+Example C18con_InsertObjectAt_realloc_old_witness :
+  run 1 [OAdd 0 1%Z; OAdd 0 2%Z; OInsertAt 0 1 5%Z] = spec_run 1 [OAdd 0 1%Z; OAdd 0 2%Z; OInsertAt 0 1 5%Z] /\
   map (fun o => (o_slots o, o_live o, o_bad o)) (run 1 [OAdd 0 1%Z; OAdd 0 2%Z; OInsertAt 0 1 5%Z]) =
-  [([[1]], 1, 0%N); ([[1; 2]], 2, 0%N); ([[5; 1; 2]], 5, 0%N)]%Z. (* specification: live = 3 *)
-Proof. vm_compute. reflexivity. Qed.
+  [([[1]], 1, 0%N); ([[1; 2]], 2, 0%N); ([[5; 1; 2]], 3, 0%N)]%Z.
+Proof. vm_compute. split; reflexivity. Qed.
 
+(* front, middle, append and out-of-range insertions, in place and with reallocation *)
+Example C18con_InsertObjectAt_positions :
+  safe_hist 1 [OInsertAt 0 1 9%Z; OInsertAt 0 1 8%Z; OInsertAt 0 3 7%Z; OInsertAt 0 2 6%Z; OResize 0 8;
+               OInsertAt 0 5 5%Z; OInsertAt 0 3 4%Z; OInsertAt 0 1 3%Z; OInsertAt 0 9 2%Z; OInsertAt 0 0 2%Z] = true /\
+  map o_slots (run 1 [OInsertAt 0 1 9%Z; OInsertAt 0 1 8%Z; OInsertAt 0 3 7%Z; OInsertAt 0 2 6%Z; OResize 0 8;
+               OInsertAt 0 5 5%Z; OInsertAt 0 3 4%Z; OInsertAt 0 1 3%Z; OInsertAt 0 9 2%Z; OInsertAt 0 0 2%Z]) =
+  [[[9]]; [[8; 9]]; [[8; 9; 7]]; [[8; 6; 9; 7]]; [[8; 6; 9; 7]]; [[8; 6; 9; 7; 5]]; [[8; 6; 4; 9; 7; 5]];
+   [[3; 8; 6; 4; 9; 7; 5]]; [[3; 8; 6; 4; 9; 7; 5]]; [[3; 8; 6; 4; 9; 7; 5]]]%Z.
+Proof. vm_compute. split; reflexivity. Qed.
+
+(* ---- what the model (and the real code) shows on the remaining witness ------------------------- *)
 Example C18con_witness_Resize_zero :
   map (fun o => (o_slots o, o_live o, o_bad o)) (run 1 [OAdd 0 1%Z; OResize 0 0]) =
   [([[1]], 1, 0%N); ([[]], 0, 0%N)]%Z.                          (* specification: [1], live = 1 *)
